@@ -31,9 +31,13 @@ def gen_dh(rng, axes, dtype=None, big=False):
         if big and dtype != "float16": pool += [Fr(70000), Fr(32767), Fr(2 ** 31), Fr(2 ** 31 - 128)]
         if big and dtype in ("float64", "float128"): pool += [Fr(2 ** 31 - 1), Fr(2 ** 63), Fr(2 ** 62)]
         freq = [rng.choice(pool) for _ in range(size)]
-    err2 = list(freq) if rng.random() < 0.6 else [x if rng.random() < 0.5 else rng.choice([0, 1, 4]) for x in freq]
+    r = rng.random()
+    if r < 0.5: err2 = list(freq)
+    elif r < 0.8 or not big: err2 = [x if rng.random() < 0.5 else rng.choice([0, 1, 4]) for x in freq]
+    else: err2 = [rng.choice(pool) if dtype.startswith("float") else min(rng.choice(pool), LIMITS.get(dtype, 2 ** 62)) for _ in freq]   # errors2 beyond the contents
     nd = len(axes)
-    return [["axes", axes], ["dtype", dtype], ["freq", freq], ["err2", err2], ["missed", [0] * (3 if nd == 1 else 1)],
+    missed = [rng.choice([0, 0, 1, 2]) for _ in range(3 if nd == 1 else 1)] if (not big and rng.random() < 0.4) else [0] * (3 if nd == 1 else 1)
+    return [["axes", axes], ["dtype", dtype], ["freq", freq], ["err2", err2], ["missed", missed],
             ["stats", "none"], ["keep", "T"], ["names", ["ax%d" % i for i in range(nd)]]]
 
 def gen(rng, n, tier):
